@@ -27,6 +27,7 @@ type Request struct {
 	Body                  []byte
 	BodySHA               [32]byte
 	Chunked               bool
+	Trailers              []Header // trailer fields after the last chunk
 	ConnID                int64
 	RemoteAddr            string
 	At                    time.Time
@@ -228,7 +229,7 @@ func (u *Upstream) handle(c net.Conn, connID int64) {
 		req := &Request{Method: p[0], Target: p[1], Proto: p[2], Headers: hdrs, ConnID: connID, RemoteAddr: c.RemoteAddr().String(), At: time.Now()}
 		if strings.Contains(strings.ToLower(get(hdrs, "Transfer-Encoding")), "chunked") {
 			req.Chunked = true
-			req.Body, _, err = readChunked(br)
+			req.Body, req.Trailers, err = readChunked(br)
 			if err != nil {
 				return
 			}
